@@ -24,6 +24,7 @@ type Obj struct {
 	Init  Value // initial contents (materialised when created)
 	Ghost string // "bufio", "sha", ... for opaque library objects
 	ReadOnly bool
+	Shared   bool // written by a goroutine spawned by the function under verification: every load is arbitrary
 }
 
 // Sel: one step of an address path inside an object.
@@ -38,6 +39,7 @@ type PtrV struct {
 	Path []Sel
 	Elem types.Type // pointee type
 	lazy func() *Obj
+	Addr *Term // symbolic identity (BV64) of a pointer taken from the pre-state or received from a peer
 }
 
 type SliceV struct {
